@@ -1520,3 +1520,61 @@ Example T02i_transp_examples :
   eval [(0%nat, ragged)] (ERows (EZip (EZip (EVar 0%nat)))) = Ok (VList [VList [VInt 1]; VList [VInt 3]]).
 Proof. repeat split; reflexivity. Qed.
 End Idx.
+
+(* ================================================================================================
+   Tranche "idx", second part: fixes.inline_math_comprehensions over the store semantics of the perf tranche
+   (RulesIdxInlModel: the simple statements of RulesPerfModel + z = sum(e) / z = len(e)) *)
+Require Pyrefact.RulesIdxInlModel Pyrefact.RulesIdxInlProofs.
+Module IdxInl.
+Import ZArith.
+Import ListNotations.
+Import Pyrefact.RulesPerfModel Pyrefact.RulesPerfProofs Pyrefact.RulesIdxInlModel Pyrefact.RulesIdxInlProofs.
+
+(* the step of the rule from ANY state (environment, store) that meets the guard: the value is made of list / tuple /
+   sorted / a list comprehension over displays and variables that hold a list of the store or a tuple, it does not
+   mention y, the statements in between bind other names to atoms / displays or print them.  Equality of exception,
+   environment, lists, iterators and event trace, for every world and every continuation. *)
+Theorem T02i_inline_math_step_partial : forall W en h y v mid z ln post,
+  step_ok en h y v mid = true ->
+  exec_ip W en (IS (SAssign y v) :: mid ++ IMath z ln v :: post) h
+  = exec_ip W en (IS (SAssign y v) :: mid ++ IMath z ln (EAtom (AVar y)) :: post) h.
+Proof. exact inl_step_partial. Qed.
+Print Assumptions T02i_inline_math_step_partial.
+
+(* inside a module: the state reached by the statements before must meet the guard *)
+Theorem T02i_inline_math_partial : forall W pre y v mid z ln post,
+  (forall en1 h1, exec_ip W [] pre empty_heap = (None, en1, h1) -> step_ok en1 h1 y v mid = true) ->
+  run_i W (pre ++ IS (SAssign y v) :: mid ++ IMath z ln v :: post)
+  = run_i W (pre ++ IS (SAssign y v) :: mid ++ IMath z ln (EAtom (AVar y)) :: post).
+Proof. exact inl_partial. Qed.
+Print Assumptions T02i_inline_math_partial.
+
+(* F02idx-6: a call inside the value runs twice *)
+Theorem T02i_inline_math_twice_refuted : exists W p, obs (run_i W (inl p)) <> obs (run_i W p).
+Proof. exact inl_twice_refuted. Qed.
+Print Assumptions T02i_inline_math_twice_refuted.
+
+(* F02idx-7: the iterator the value is computed from is used up by the first evaluation *)
+Theorem T02i_inline_math_used_up_refuted : exists W p, obs (run_i W (inl p)) <> obs (run_i W p).
+Proof. exact inl_used_up_refuted. Qed.
+Print Assumptions T02i_inline_math_used_up_refuted.
+
+(* the rule before 13da1a3: the list changes through another name in between; the repaired rule leaves it alone *)
+Theorem T02i_old_inline_math_alias_refuted :
+  exists W p, inl p = p /\ obs (run_i W (inl_before_13da1a3 p)) <> obs (run_i W p).
+Proof. exact inl_before_13da1a3_refuted. Qed.
+Print Assumptions T02i_old_inline_math_alias_refuted.
+
+Example T02i_inline_examples :
+  (* the rule fires on p_fine, at the shape of the theorem, and the guard holds in the state before 'y = sorted(a)' *)
+  inl p_fine = IS (SAssign va (EDisp [3; 1; 2])) :: IS (SAssign vy (ESorted false (EAtom (AVar va))))
+               :: p_fine_mid ++ [IMath vz false (ESorted false (EAtom (AVar va))); print_z] /\
+  (let '(_, en, h) := exec_ip W12 [] [IS (SAssign va (EDisp [3; 1; 2]))] empty_heap in
+   step_ok en h vy (ESorted false (EAtom (AVar va))) p_fine_mid) = true /\
+  obs (run_i W12 p_fine) = (None, [EvPrint (RInt 3); EvPrint (RInt 6)]) /\
+  obs (run_i W12 p_used_up) = (None, [EvPull 0 0; EvPull 0 1; EvDone 0; EvPrint (RInt 3)]) /\
+  obs (run_i W12 (inl p_used_up)) = (None, [EvPull 0 0; EvPull 0 1; EvDone 0; EvPrint (RInt 0)]) /\
+  obs (run_i W12 p_alias) = (None, [EvPrint (RInt 6)]) /\
+  obs (run_i W12 (inl_before_13da1a3 p_alias)) = (None, [EvPrint (RInt 10)]).
+Proof. repeat split; reflexivity. Qed.
+End IdxInl.
